@@ -39,7 +39,7 @@ from .C09_union import trees_equal
 
 OBLIGATION_FLOOR = 60
 Z3_TIMEOUT_MS = 40000
-UNITS = ['write', 'update_equals_write', 'resume', 'run_protocol']
+UNITS = ['write', 'update_equals_write', 'resume', 'run_protocol', 'run_sync']
 BRANCH_COVERED_FUNCTIONS = ()
 DEAD_BRANCHES = ()
 _EX = {}
@@ -413,7 +413,20 @@ def build(cx, fe, tier, info, only=None):
     if only in (None, 'run_protocol'):
         from .C05_resume import unit_protocol
         unit_protocol(cx, fe, info)
+    if only in (None, 'run_sync'):
+        from . import C01
+        from .C05_sync import Sync
+        info2 = dict(functions=[])
+        C01.build(cx, fe, tier, info2, only='run[verbose=False,file=True]',
+                  aspect=Sync(fe, SQ + 'run', MODIFIED_BETWEEN_WRITES))
+        fn_entry(fe, info, SQ + 'run', status='file-in-sync invariant woven '
+                 'into the C01 proof of run() (contracts of C01 re-verified)')
     info['assumptions'] = [
+        'C05: at entry of run() the checkpoint file, if the sampler has made '
+        'likelihood calls, equals write(state) (established by resume, by '
+        'the previous run() and by construction); n_update >= 1 and '
+        'n_like_new_bound >= 1; list mutations through .pop() in the '
+        'empty-shell removal are not tracked as dirty (a full write follows)',
         'C05: h5py exact storage, closed world; int(str(x)) == x; a bound and '
         'its proposal state survive write/read and update/read (C09: proved '
         'for Union and the basic classes, bounded for NautilusBound/NeuralBound)',
